@@ -244,7 +244,11 @@ func (s *stepper) step(cmd Cmd, before string) (issues []Issue, after string, pa
 		before = metacmd.DumpNoPos(d)
 	}
 	var res string
-	panicked = vf.Catch(func() { res = resString(s.f.Apply(cmd.Log(d.Index+1, 1))) })
+	if os.Getenv("C16_DEBUG_PANIC") != "" { // debugging aid: let the panic through with its stack
+		res = resString(s.f.Apply(cmd.Log(d.Index+1, 1)))
+	} else {
+		panicked = vf.Catch(func() { res = resString(s.f.Apply(cmd.Log(d.Index+1, 1))) })
+	}
 	if panicked != nil {
 		return nil, "", panicked
 	}
@@ -500,6 +504,7 @@ func randomWorker(c *vf.Ctx, k int) {
 		c.Count("random:sequences", 1)
 		c.Count("random:commands-applied", int64(len(hist)))
 		c.Count("random:failed-commands-checked-unchanged", int64(st.errs))
+		c.Count("random:observation:(state,shard) pairs with a pruned shard inside a live group", st.mon.PrunedInLive)
 		if maxLive >= 2 && st.errs > 0 && st.oks >= 30 {
 			c.Nontrivial(fmt.Sprintf("rand/%d/%d", k, sn))
 		}
